@@ -18,7 +18,7 @@ S(kind) == Site(kind, "x")      \* ids are assigned by position when the case is
 RECURSIVE Items(_)
 Leaf == {S(k) : k \in SiteKinds}
         \cup (IF "assign" \in ItemKinds THEN {Assign("a", PlainItem)} \cup {Assign("a", S(k)) : k \in SiteKinds} ELSE {})
-        \cup (IF "userdecl" \in ItemKinds THEN {UserDecl("_slot"), UserDecl("_a")} ELSE {})
+        \cup (IF "userdecl" \in ItemKinds THEN {UserDecl("_slot"), UserDecl("_a"), UserDecl("_createVNode"), UserDecl("_isSlot"), UserDecl("_Fragment")} ELSE {})
         \cup (IF "classfield" \in ItemKinds THEN {ClassField(S(k)) : k \in SiteKinds \cap {"call", "ident"}} ELSE {})
         \cup (IF "arrow" \in ItemKinds THEN {ArrowExpr(S(k)) : k \in SiteKinds} \cup {ArrowExpr(Assign("a", S("ident")))} ELSE {})
 Bodies(d) == UNION {[1..n -> Items(d)] : n \in 0..MaxBody}
